@@ -89,6 +89,15 @@ class GzipDecompressor:
         """Returns the unconsumed portion left over"""
         return self.decompressobj.unconsumed_tail
 
+    @property
+    def eof(self) -> bool:
+        """True once the end of the compressed stream has been reached.
+
+        If this is still false when there is no more input, the input
+        was truncated.
+        """
+        return self.decompressobj.eof
+
     def flush(self) -> bytes:
         """Return any remaining buffered data not yet returned by decompress.
 
